@@ -6,6 +6,7 @@ From V Require Import Lib.Enc Model.Bits Proofs.BitsBasic Proofs.BitsIter Proofs
 From V Require Run.C16.
 From V Require Import Lib.GoSem Gen.BitsCode Proofs.BitsCode Proofs.BitsCodeRun.
 From V Require Run.C16Code.
+From V Require Gen.DszBitsCode Proofs.DszBitsCode.
 Import ListNotations.
 Local Open Scope N_scope.
 
@@ -131,3 +132,31 @@ Print Assumptions c16_code_is_model.
 Theorem c16_entry_runs_generated_code : forall sub args, Run.C16Code.entry_code sub args = Run.C16.entry sub args.
 Proof. exact entry_code_is_entry. Qed.
 Print Assumptions c16_entry_runs_generated_code.
+
+(* dsz/bits.go, type Bits (the deprecated twin with the length cached inline): Gen/DszBitsCode.v, regenerated on every run,
+   equals the model's record functions b_add / b_remove (cached length moves exactly when membership changes), contains,
+   grow, cap; Len is the cached field.  Same conversion (to_bits / of_bits: words through Z.to_N / Z.of_N, the cached
+   length as it is), same premises (wfd: every word in [0, 2^64); 0 <= n), wfd preserved. *)
+Theorem c16_dsz_code_is_model :
+  (forall b n, DszBitsCode.wfd b -> (0 <= n)%Z ->
+     Gen.DszBitsCode.g_Bits_Grow b n =
+     Ret (DszBitsCode.of_bits {| words := grow (words (DszBitsCode.to_bits b)) (Z.to_N n); cached := cached (DszBitsCode.to_bits b) |})) /\
+  (forall b n, DszBitsCode.wfd b -> (0 <= n)%Z ->
+     Gen.DszBitsCode.g_Bits_Add b n = Ret (DszBitsCode.of_bits (fst (b_add (DszBitsCode.to_bits b) (Z.to_N n))))) /\
+  (forall b n, DszBitsCode.wfd b -> (0 <= n)%Z ->
+     Gen.DszBitsCode.g_Bits_Remove b n = Ret (DszBitsCode.of_bits (fst (b_remove (DszBitsCode.to_bits b) (Z.to_N n))))) /\
+  (forall b n, DszBitsCode.wfd b -> (0 <= n)%Z ->
+     Gen.DszBitsCode.g_Bits_Contains b n = Ret (contains (words (DszBitsCode.to_bits b)) (Z.to_N n))) /\
+  (forall b, Gen.DszBitsCode.g_Bits_Len b = Ret (cached (DszBitsCode.to_bits b))) /\
+  (forall b, DszBitsCode.wfd b -> Gen.DszBitsCode.g_Bits_Cap b = Ret (Z.of_N (cap (words (DszBitsCode.to_bits b))))) /\
+  (forall b, DszBitsCode.wfd b -> DszBitsCode.of_bits (DszBitsCode.to_bits b) = b) /\
+  (forall m, DszBitsCode.to_bits (DszBitsCode.of_bits m) = m) /\
+  (forall b n, DszBitsCode.wfd b ->
+     DszBitsCode.wfd (DszBitsCode.of_bits {| words := grow (words (DszBitsCode.to_bits b)) n; cached := cached (DszBitsCode.to_bits b) |}) /\
+     DszBitsCode.wfd (DszBitsCode.of_bits (fst (b_add (DszBitsCode.to_bits b) n))) /\
+     DszBitsCode.wfd (DszBitsCode.of_bits (fst (b_remove (DszBitsCode.to_bits b) n)))).
+Proof.
+  exact (conj DszBitsCode.dsz_Grow (conj DszBitsCode.dsz_Add (conj DszBitsCode.dsz_Remove (conj DszBitsCode.dsz_Contains
+        (conj DszBitsCode.dsz_Len (conj DszBitsCode.dsz_Cap (conj DszBitsCode.of_to_bits (conj DszBitsCode.to_of_bits DszBitsCode.dsz_wf)))))))).
+Qed.
+Print Assumptions c16_dsz_code_is_model.
